@@ -386,4 +386,120 @@ theorem find_roots_total (f : IFun K) (hc : IFunContract f) (init : Interval K) 
   obtain ⟨res, h⟩ := find_roots_terminates sq f init minW minImg maxRec fuel hfuel
   exact ⟨res, h, find_roots_cover sq f hc init minW minImg maxRec fuel res h⟩
 
+/-! ## every returned interval lies inside `init` -/
+
+/-- `i` is a valid interval inside `init` -/
+def SubOf (init i : Interval K) : Prop := init.lo ≤ i.lo ∧ i.lo ≤ i.hi ∧ i.hi ≤ init.hi
+def AllSub (init : Interval K) (st : RootState K) : Prop :=
+  (∀ i ∈ st.1, SubOf init i) ∧ (∀ c ∈ st.2, SubOf init c.1)
+
+private theorem push_sub (f : IFun K) (minW minImg : K) (maxRec : Nat) (init cand : Interval K) (r : Nat) (st : RootState K)
+    (hc : SubOf init cand) (h : AllSub init st) :
+    letI := fieldNum K sq
+    AllSub init (pushCandidate f minW minImg maxRec cand r st) := by
+  obtain ⟨h1, h2⟩ := h
+  unfold pushCandidate
+  simp only
+  split_ifs
+  · refine ⟨fun i hi => ?_, h2⟩
+    rcases List.mem_append.1 hi with hi | hi
+    · exact h1 i hi
+    · rw [List.mem_singleton.1 hi]; exact hc
+  · refine ⟨h1, fun c hc' => ?_⟩
+    rcases List.mem_cons.1 hc' with rfl | hc'
+    · exact hc
+    · exact h2 c hc'
+  · refine ⟨fun i hi => ?_, h2⟩
+    rcases List.mem_append.1 hi with hi | hi
+    · exact h1 i hi
+    · rw [List.mem_singleton.1 hi]; exact hc
+  · exact ⟨h1, h2⟩
+
+private theorem ite_some {r0 r : Interval K} {c : Prop} [Decidable c]
+    (h : (if c then none else some r0) = some r) : ¬ c ∧ r0 = r := by
+  split_ifs at h with hc
+  exact ⟨hc, Option.some.inj h⟩
+
+private theorem newtonPiece_sub (mid : K) (shift : EInterval K) (cand r : Interval K) :
+    letI := fieldNum K sq
+    newtonPiece mid shift cand = some r → cand.lo ≤ r.lo ∧ r.lo ≤ r.hi ∧ r.hi ≤ cand.hi := by
+  obtain ⟨lo, hi⟩ := shift
+  cases lo <;> cases hi <;> intro h <;> simp only [newtonPiece, Ext.subFrom, fieldNum_nmax, fieldNum_nmin] at h
+  all_goals first
+    | (cases h; done)
+    | (obtain ⟨hlt, rfl⟩ := ite_some h
+       push Not at hlt
+       exact ⟨by first | exact le_refl _ | exact le_max_right _ _, hlt, by first | exact le_refl _ | exact min_le_right _ _⟩)
+
+private theorem pushNew_sub (f : IFun K) (minW minImg : K) (maxRec : Nat) (pw : K) (init : Interval K) (r : Nat)
+    (nc : Option (Interval K)) (st : RootState K) (hn : ∀ c, nc = some c → SubOf init c) (h : AllSub init st) :
+    letI := fieldNum K sq
+    AllSub init (pushNew f minW minImg maxRec pw r nc st) := by
+  unfold pushNew
+  cases nc with
+  | none => exact h
+  | some c =>
+    obtain ⟨c1, c2, c3⟩ := hn c rfl
+    simp only
+    split_ifs
+    · have hm1 : c.lo ≤ (c.lo + c.hi) / 2 := by rw [le_div_iff₀ (by norm_num : (0:K) < 2)]; linarith
+      have hm2 : (c.lo + c.hi) / 2 ≤ c.hi := by rw [div_le_iff₀ (by norm_num : (0:K) < 2)]; linarith
+      refine push_sub sq f _ _ _ init _ _ _ ?_ (push_sub sq f _ _ _ init _ _ _ ?_ h)
+      · simp only [Interval.split, Interval.midpoint, SubOf, fieldNum_two]; exact ⟨by linarith, hm2, c3⟩
+      · simp only [Interval.split, Interval.midpoint, SubOf, fieldNum_two]; exact ⟨c1, hm1, by linarith⟩
+    · exact push_sub sq f _ _ _ init _ _ _ ⟨c1, c2, c3⟩ h
+
+private theorem step_sub (f : IFun K) (minW minImg : K) (maxRec : Nat) (init cand : Interval K) (r : Nat) (st : RootState K)
+    (hc : SubOf init cand) (h : AllSub init st) :
+    letI := fieldNum K sq
+    AllSub init (rootStep f minW minImg maxRec cand r st) := by
+  obtain ⟨c1, c2, c3⟩ := hc
+  unfold rootStep
+  simp only
+  refine pushNew_sub sq f _ _ _ _ init _ _ _ ?_ (pushNew_sub sq f _ _ _ _ init _ _ _ ?_ h)
+  · intro c hcs
+    cases hd : (@Interval.div K (fieldNum K sq) ⟨f.eval (@Interval.midpoint K (fieldNum K sq) cand), f.eval (@Interval.midpoint K (fieldNum K sq) cand)⟩ (f.gradI cand)).2 with
+    | none => rw [hd] at hcs; cases hcs
+    | some s =>
+      rw [hd] at hcs
+      obtain ⟨a1, a2, a3⟩ := newtonPiece_sub sq _ _ _ _ hcs
+      exact ⟨by linarith, a2, by linarith⟩
+  · intro c hcs
+    obtain ⟨a1, a2, a3⟩ := newtonPiece_sub sq _ _ _ _ hcs
+    exact ⟨by linarith, a2, by linarith⟩
+
+private theorem loop_sub (f : IFun K) (minW minImg : K) (maxRec : Nat) (init : Interval K) :
+    letI := fieldNum K sq
+    ∀ (fuel : Nat) (st : RootState K) (res : List (Interval K)), AllSub init st →
+      rootsLoop f minW minImg maxRec fuel st = some res → ∀ i ∈ res, SubOf init i := by
+  intro fuel
+  induction fuel with
+  | zero =>
+    intro st res hs h
+    obtain ⟨r0, cs⟩ := st
+    cases cs with
+    | nil => simp only [rootsLoop, Option.some.injEq] at h; subst h; exact hs.1
+    | cons c cs => simp [rootsLoop] at h
+  | succ n ih =>
+    intro st res hs h
+    obtain ⟨r0, cs⟩ := st
+    cases cs with
+    | nil => simp only [rootsLoop, Option.some.injEq] at h; subst h; exact hs.1
+    | cons c cs =>
+      obtain ⟨ci, cr⟩ := c
+      simp only [rootsLoop] at h
+      exact ih _ res (step_sub sq f _ _ _ init ci cr (r0, cs) (hs.2 (ci, cr) (List.mem_cons_self ..))
+        ⟨hs.1, fun c hc => hs.2 c (List.mem_cons_of_mem _ hc)⟩) h
+
+/-- **no spurious region**: every interval returned by `find_root_intervals` is a valid interval (`lo ≤ hi`) lying
+inside `init` (for a valid `init`), whatever the function. -/
+theorem find_roots_sub (f : IFun K) (init : Interval K) (hinit : init.lo ≤ init.hi) (minW minImg : K) (maxRec fuel : Nat)
+    (res : List (Interval K)) :
+    letI := fieldNum K sq
+    findRootIntervals f init minW minImg maxRec fuel = some res → ∀ i ∈ res, init.lo ≤ i.lo ∧ i.lo ≤ i.hi ∧ i.hi ≤ init.hi := by
+  intro h
+  refine loop_sub sq f minW minImg maxRec init fuel _ res ?_ h
+  exact push_sub sq f _ _ _ init init 0 ([], []) ⟨le_refl _, hinit, le_refl _⟩
+    (show AllSub init ([], []) from ⟨fun i hi => absurd hi List.not_mem_nil, fun c hc => absurd hc List.not_mem_nil⟩)
+
 end C09
